@@ -165,8 +165,25 @@ impl<'tcx> Ex<'tcx> {
                     rustc_middle::mir::Const::Unevaluated(uv, _) => uv.promoted.map(|p| p.as_usize() as i64).unwrap_or(-1),
                     _ => -1,
                 };
+                // string-like constants (&str, &[u8], &CStr literals): export the bytes
+                let mut repr = format!("{}", c.const_);
+                if cty.is_ref() && promoted < 0 {
+                    if let Ok(val) = c.const_.eval(self.tcx, env, c.span) {
+                        if let rustc_middle::mir::ConstValue::Slice { .. } = val {
+                            if let Some(bytes) = val.try_get_slice_bytes_for_diagnostics(self.tcx) {
+                                let pointee = cty.peel_refs().to_string();
+                                let body = String::from_utf8_lossy(bytes).into_owned();
+                                if pointee != "str" {
+                                    repr = format!("b{:?}", body);
+                                } else {
+                                    repr = format!("{:?}", body);
+                                }
+                            }
+                        }
+                    }
+                }
                 format!("{{\"k\":\"const\",\"ty\":{},\"int\":{},\"repr\":{},\"fn\":{},\"promoted\":{}}}",
-                    self.ty_json(cty), int, esc(&format!("{}", c.const_)), f, promoted)
+                    self.ty_json(cty), int, esc(&repr), f, promoted)
             }
             #[allow(unreachable_patterns)]
             other => format!("{{\"k\":\"other\",\"d\":{}}}", esc(&format!("{:?}", other))),
